@@ -884,6 +884,7 @@ type c08Run struct {
 	busy   int            // events seen while a metric was in force and pods were assigned
 	concOrder string      // inside a concurrent segment: the observed order of completed calls
 	reach  int            // filters that reached the threshold comparison
+	viaNew bool           // framework harness: the plugin of every cycle is built by the package's New
 	fwCustomCompared int  // framework verdicts compared on a node that carries a valid custom-thresholds annotation
 }
 
